@@ -9,6 +9,36 @@ NA = {
 PENDING = "not claimed yet: contracts for this property are still being written (DESIGN.md build order)"
 
 CLAIMED = {
+ "C02": dict(
+   text="Deductive, on the constant request-pipeline template extracted from the working-tree plugin on every run (template constancy is proved structurally, so the extracted instance is every instance): event obligations on the BindingMiddleware closure (exactly one of dispatch/error per request; URL binders run after body decoding so URL values survive the body; dispatch only when every binder and validation returned nil), the per-kind contract of convertStringToFieldValue, content-type dispatch of the body binder. The body-wipes-URL-fields defect found by the check was repaired (fix: commit) after an httptest replay on the emitted server.",
+   design="4 (C02), 3",
+   note="Trusted: protojson/proto Unmarshal reset the message first; net/http PathValue/Query, strconv and protoreflect are observers. Not proved: the per-field equality 'message field == converted URL value' inside bindPathParams/bindQueryParams (needs a model of protoreflect.Message.Set); TypeScript server half.",
+   technique="contract-based deductive verification of extracted emitted Go: event/at-call obligations and functional contracts, z3/cvc5 race; structural template-constancy rule"),
+ "C10": dict(
+   text="Deductive decision-table contracts on the emitted error path (writeErrorWithHandler hook table per the documented ErrorHandler contract, defaultErrorResponse, defaultErrorStatusCode, genericHandler adapter, response writers' codec/Content-Type table) and on the emitted client's error mapping and codec helpers, plus http.Error.Error(); all extracted fresh from the working tree.",
+   design="4 (C10)",
+   note="Trusted: errors.As (direct-hit axiom only), net/http ResponseWriter protocol, protojson/proto. Not covered: dotted field paths of convertProtovalidateError beyond panic-freedom, TS clients.",
+   technique="contract-based deductive verification of extracted emitted Go (event/at-call obligations), z3/cvc5 race"),
+ "C11": dict(
+   text="Deductive: panic-freedom obligations (index, slice, nil dereference, type assertion, nil-map write) on the emitted server templates and the emitted client methods of the extraction schema, decode-or-400 obligations (a request is dispatched only if a decoder accepted the whole body; decoder errors reach the error path), and the generator-side lemma that path variables are singular scalars (which makes the reflective Set safe).",
+   design="4 (C11)",
+   note="Trusted: net/http well-formedness of handler requests, Client.Do/NewRequest postconditions, protoreflect kind/value agreement. Not covered: hangs/5xx inside libraries, schema-dependent custom decoders, client RPC methods beyond the extraction schema (bounded).",
+   technique="contract-based deductive verification of extracted emitted Go with safety VCs, z3/cvc5 race"),
+ "C14": dict(
+   text="Structural proof rule (congruence): every function of the eight duplicated codec emitters in httpgen has a token-identical twin in clientgen (modulo comments and the header writer's name), callees being shared or twins, hence equal output for equal input; header writers differ only in the generator name; both generateFile functions run each codec emitter under the same condition (file-set rule). The service-less file-set defect was repaired (fix: commit); the missing client unwrap emitter is a known finding. Violations are replayed by running both plugins on a codec family.",
+   design="4 (C14), 2.3 S3",
+   note="Congruence is syntactic: a semantically equal but textually different rewrite of one copy is reported. protogen printing is trusted.",
+   technique="structural relational proof rule (congruence of duplicated emitters) + file-set rule; family replay through the real plugins"),
+ "C15": dict(
+   text="Deductive contract for CombineHeaders proved for an arbitrary map iteration order (result sorted by name, entries from the inputs, keyed by non-empty names), plus structural rules: the only range-over-map loops in the generators are the contracted ones, no generator or plugin main reads clock/randomness/environment/files or writes package-level state or starts goroutines, and generator objects keep no cross-file state.",
+   design="4 (C15)",
+   note="Trusted: protogen/yaml/libopenapi emit in insertion order. tscommon OrderedEnums is inventoried by the map-range rule but its sortedness contract is not written yet.",
+   technique="contract-based deductive verification (map-range for arbitrary order) + structural purity rules"),
+ "C17": dict(
+   text="Ownership discipline, proved structurally on the extracted emitted server and client: package-level state is written only inside sync.Once.Do and read after it; client methods assign no client field and never let the shared defaultHeaders map escape; per-route configuration is passed by value (event obligations on the emitted Register function: each route receives its own method headers, parameter tables, verb and pattern).",
+   design="4 (C17)",
+   note="No schedule is explored. Trusted: Go memory model, documented thread-safety of http.Client, ServeMux, sync.Once, validator. Registration is checked on the extraction schema (bounded over schemas).",
+   technique="ownership/frame proof rules on extracted emitted Go + event obligations, z3/cvc5 race"),
  "C12": dict(
    text="Deductive: every annotation validator is verified as an iff decision against the rule transcribed from the property (unwrap, nullable, empty_behavior, timestamp_format, bytes_encoding, flatten field rules, oneof discriminator rules, enum conflict, HTTP path/query/bodiless rules), each error message is proved to name the offender, and the wiring is proved by recursion over the nesting tree: Generate() of go-http and go-client returning nil implies every message at every depth of every generated file satisfies every rule (termination measures included). Run-level lemmas state the property per file; the imported-file class is a known finding; a bounded family replays every rule x placement on the real plugins.",
    design="4 (C12), appendix E.1",
